@@ -1,6 +1,7 @@
 import Gallia.Lib.Proto
 import Gallia.Model.Loss
 import Gallia.Model.LossSys
+import Gallia.Model.LossPend
 open Gallia Gallia.Proto Gallia.Loss
 
 /-
@@ -20,6 +21,10 @@ open Gallia Gallia.Proto Gallia.Loss
         A:1|A:0 routing activation answered / lost, T:<ms> advance, R:<hex>:<tmo|none> request, Q:<tmo|none> transport read, C close, K reconnect
         -> one token per client call (req:<out>:<t_end>:<conns> | closed:<t> | rc:<res>:<t_end>:<conns>), then
            `wire` <conn>@<t>:<hex>,... and `refused` <n>
+
+    P <doipShared|doipSep|hsfz> <n> <D> <L|none> <diag|frame>:<tmo|none>*
+        k pending readers (Model/LossPend.lean): n messages delivered at D, the connection lost at L (none: silent peer)
+        -> one token per reader: data:<j>@<t> | timeout@<t> | conn@<t> | blocked
 
   tr: tcp-lines | unix-lines | doip | hsfz;  cut: eof | reset | silence
 -/
@@ -155,8 +160,32 @@ def stepS (tr : String) (mr : String) (toks : List String) : String :=
     | _ => "bad-op")
   | _, _ => "bad-op"
 
+open Gallia.LossPend in
+def parseRd (tok : String) : Option Rd :=
+  match tok.splitOn ":" with
+  | ["diag", t] => (parseOptNat t).map fun tmo => ⟨.diag, tmo⟩
+  | ["frame", t] => (parseOptNat t).map fun tmo => ⟨.frame, tmo⟩
+  | _ => none
+
+open Gallia.LossPend in
+def showPend (o : Outc) : String :=
+  match o.res with
+  | .data i => s!"data:{i}@{o.t}"
+  | .timeout => s!"timeout@{o.t}"
+  | .conn => s!"conn@{o.t}"
+  | .blocked => "blocked"
+
+open Gallia.LossPend in
+def stepP (fl n d l : String) (toks : List String) : String :=
+  let fl? : Option Flavor := match fl with
+    | "doipShared" => some .doipShared | "doipSep" => some .doipSep | "hsfz" => some .hsfz | _ => none
+  match fl?, n.toNat?, d.toNat?, parseOptNat l, toks.mapM parseRd with
+  | some fl, some n, some d, some l, some rs => joinSp ((outcomes fl n d l 0 rs).map fun p => showPend p.2)
+  | _, _, _, _, _ => "bad-op"
+
 def step (line : String) : String :=
   match words line with
+  | "P" :: fl :: n :: d :: l :: toks => stepP fl n d l toks
   | "S" :: tr :: mr :: toks => stepS tr mr toks
   | ["T", tr, pre, cut, delta, restart, lostAt, t0, tmo] =>
     match parseHex pre, parseCut cut, parseOptNat delta, restart.toNat?, lostAt.toNat?, t0.toNat?, parseOptNat tmo with
